@@ -220,7 +220,7 @@ func (fr *frame) unfoldWF(st *State, p PtrV) {
 func (fx *fnExec) stateKey(st *State, ht string) string {
 	var b strings.Builder
 	for _, k := range sortedKeys(st.heap) {
-		if strings.HasPrefix(k, ht+".") || k == ghostWF {
+		if strings.HasPrefix(k, ht+".") || strings.HasPrefix(k, "ghost.") {
 			b.WriteString(st.heap[k])
 			b.WriteByte(';')
 		}
@@ -302,7 +302,7 @@ func (fx *fnExec) havocGhost(st *State, preNow string, touched []string) {
 	for _, leaf := range []struct {
 		name string
 		sort Sort
-	}{{ghostWF, SBool}, {ghostPos, SInt}, {ghostEnd, SInt}, {ghostPrec, SInt}} {
+	}{{ghostWF, SBool}, {ghostPF, SBool}, {ghostPos, SInt}, {ghostEnd, SInt}, {ghostPrec, SInt}} {
 		if _, used := st.heap[leaf.name]; !used && !fx.ghostUsed[leaf.name] {
 			continue
 		}
